@@ -89,15 +89,27 @@ def encode(job):
     if len(alpha) != len(M.symbols(spec)):
         res["skip"] = "rule names a child more than once (outside the property's quantifier)"
         return res
+    if not alpha and (L > 0 or prefix):
+        res["skip"] = "empty"            # a rule without children has no existing child sequence of positive length over its names
+        return res
     r = R.Rule(rule_name)
 
     def make(**kw):
         return Interp(bv=BV, logic="QF_BV", seed=sd, **kw)
 
+    def variants():
+        out = []
+        for a in alpha:                      # look-alike candidates: case variants of the rule's own names
+            for v in (a.lower(), a.upper(), a[:1].upper() + a[1:], a + " "):
+                out.append(v)
+        return out
+
     def body(it):
         for a in alpha:
             it.intern.code(a)
         it.intern.code("")
+        for v in variants():
+            it.intern.code(v)
         names = [it.name("n%d" % i) for i in range(L)]
         new = it.name("new")
         it.solver.add(zand(*[zor(*[n.z == it.intern.code(a) for a in alpha]) for n in names]))
@@ -120,6 +132,8 @@ def encode(job):
         for a in alpha:
             it.intern.code(a)
         it.intern.code("")
+        for v in variants():
+            it.intern.code(v)
         new = it.name("new")
         return {"ret": it.call(r.is_allowed_child, [new], {})}
     try:
@@ -131,6 +145,12 @@ def encode(job):
     it = view.q
     for a in alpha:
         it.intern.code(a)
+    k = min(len(it.intern.names), len(view2.q.intern.names))
+    if it.intern.names[:k] != view2.q.intern.names[:k]:
+        res["unsupported"] = "the two runs interned literals in different orders"
+        return res
+    for nm in view2.q.intern.names:
+        it.intern.code(nm)
     res["mode"] = view.mode
     res["paths"] = view.paths
     names = [Sym(z3.BitVec("n%d" % i, BV), "name") for i in range(L)]
@@ -251,7 +271,8 @@ def run(tier, only=None):
             rep.mismatch.append("%s: engine crashed: %s" % (tag, r[:300]))
             continue
         if "skip" in r:
-            skipped.append(rn)
+            if r["skip"] != "empty":
+                skipped.append(rn)
             continue
         rep.encodings += 1
         if "unsupported" in r:
@@ -282,6 +303,8 @@ def run(tier, only=None):
                 else:
                     rep.mismatch.append("%s: solver model %r for %s does not reproduce natively" % (tag, (seq, new), qn))
         tw = r["twins"]
+        if tw.get("reach_index") != "sat" and tw.get("reach_refused") != "sat":
+            rep.inconclusive.append("%s: vacuous encoding (neither an index nor a refusal is reachable)" % tag)
         if "reach_index_model" in tw:
             seq, new, idx = tw["reach_index_model"]
             k = _native(rn, seq, new)
